@@ -2,11 +2,18 @@ use crate::report::{Property, Tier};
 
 pub mod codec_common;
 pub mod c01;
+pub mod c02;
+pub mod c03;
+pub mod l1;
+pub mod c06;
 pub mod c07;
 
 pub fn get(id: &str, tier: Tier) -> Option<Property> {
     Some(match id {
         "C01" => c01::property(tier),
+        "C02" => c02::property(tier),
+        "C03" => c03::property(tier),
+        "C06" => c06::property(tier),
         "C07" => c07::property(tier),
         _ => return None,
     })
